@@ -4,6 +4,7 @@ import (
 	"context"
 	"encoding/json"
 	"fmt"
+	"io"
 	"net/http"
 	"net/http/httptest"
 	"net/url"
@@ -28,7 +29,11 @@ import (
 // The request lattice is finite and enumerated completely.
 
 type c19Case struct {
-	Kind     string `json:"kind"` // rpc | web
+	Kind string `json:"kind"` // rpc | web | idp-session | idp-callback
+	// identity-provider answers (idp kinds): token exchange, org check of the first and of the second request
+	Token    string `json:"token,omitempty"`
+	Org1     string `json:"org1,omitempty"`
+	Org2     string `json:"org2,omitempty"`
 	ServerPw bool   `json:"server_password"`
 	Cred     string `json:"credential"`
 	Endpoint string `json:"endpoint"`
@@ -257,6 +262,8 @@ type c19WebEnv struct {
 }
 
 func c19StartWeb(c *fw.Ctx, oauth, pw bool) *c19WebEnv {
+	c19InstallProvider()
+	c19IdP.set("neterr", "neterr")
 	def := c13Table()
 	def.PartitionBy = nil
 	db, err := dbdrv.Open(newDir(c), dbdrv.Config{Tables: []dbdrv.TableDef{def}})
@@ -330,8 +337,7 @@ func (e *c19WebEnv) request(path string, cred string) (int, int) {
 	case strings.HasPrefix(cred, "cookie-"):
 		req.AddCookie(&http.Cookie{Name: "authcookie", Value: c19Cookie(cred)})
 	}
-	client := &http.Client{Timeout: 30 * time.Second, CheckRedirect: func(req *http.Request, via []*http.Request) error { return http.ErrUseLastResponse }}
-	resp, err := client.Do(req)
+	resp, err := c19Client.Do(req)
 	if err != nil {
 		return -1, 0
 	}
@@ -347,6 +353,179 @@ func (e *c19WebEnv) request(path string, cred string) (int, int) {
 		}
 	}
 	return resp.StatusCode, rows
+}
+
+// c19Client talks to the httptest server over a transport of its own: http.DefaultTransport is the identity provider.
+var c19Client = &http.Client{Timeout: 30 * time.Second, Transport: &http.Transport{},
+	CheckRedirect: func(req *http.Request, via []*http.Request) error { return http.ErrUseLastResponse }}
+
+// ---- the identity provider as an environment whose answers the harness chooses ------------------------------
+//
+// web.handler calls github.com (token exchange) and api.github.com (org membership) through an http.Client without
+// a transport, i.e. through http.DefaultTransport. The harness replaces it by a provider that gives the answer the
+// current case prescribes, so that every combination of provider answers is explored - offline, deterministically.
+
+type c19Provider struct {
+	mx         sync.Mutex
+	token, org string
+	calls      int
+}
+
+var c19IdP = &c19Provider{token: "neterr", org: "neterr"}
+var c19IdPOnce sync.Once
+
+func c19InstallProvider() {
+	c19IdPOnce.Do(func() { http.DefaultTransport = c19IdP })
+}
+
+var c19TokenAnswers = []string{"ok", "neterr", "500", "garbage", "empty"}
+var c19OrgAnswers = []string{"member", "nonmember", "neterr", "401", "403", "500", "garbage", "empty"}
+
+func (p *c19Provider) set(token, org string) {
+	p.mx.Lock()
+	p.token, p.org = token, org
+	p.mx.Unlock()
+}
+
+func (p *c19Provider) RoundTrip(req *http.Request) (*http.Response, error) {
+	p.mx.Lock()
+	token, org := p.token, p.org
+	p.calls++
+	p.mx.Unlock()
+	answer := func(code int, body string) (*http.Response, error) {
+		return &http.Response{StatusCode: code, Status: fmt.Sprint(code), Proto: "HTTP/1.1", ProtoMajor: 1, ProtoMinor: 1,
+			Header: http.Header{"Content-Type": []string{"application/json"}}, Body: io.NopCloser(strings.NewReader(body)), Request: req}, nil
+	}
+	which := org
+	if strings.Contains(req.URL.Host, "github.com") && strings.Contains(req.URL.Path, "access_token") {
+		which = token
+	} else if !strings.Contains(req.URL.Host, "api.github.com") {
+		return nil, fmt.Errorf("no route to %s (sandbox)", req.URL.Host)
+	} else if a := req.Header.Get("Authorization"); a != "token tok" && a != "token token" && (which == "member" || which == "nonmember" || which == "empty") {
+		// the provider knows two access tokens: the one its token exchange hands out and the one inside the
+		// harness's session cookies; it cannot vouch for any other (for instance an empty one)
+		return answer(401, `{"message":"Bad credentials"}`)
+	}
+	switch which {
+	case "ok":
+		return answer(200, `{"access_token":"tok","token_type":"bearer"}`)
+	case "member":
+		return answer(200, `[{"login":"other"},{"login":"org"}]`)
+	case "nonmember":
+		return answer(200, `[{"login":"other"}]`)
+	case "empty":
+		if which == token && strings.Contains(req.URL.Path, "access_token") {
+			return answer(200, `{}`)
+		}
+		return answer(200, `[]`)
+	case "garbage":
+		return answer(200, `<html>rate limited</html>`)
+	case "401":
+		return answer(401, `{"message":"Bad credentials"}`)
+	case "403":
+		return answer(403, `{"message":"API rate limit exceeded"}`)
+	case "500":
+		return answer(500, `oops`)
+	}
+	return nil, fmt.Errorf("connection refused (provider answer %q)", which)
+}
+
+// c19Get issues one GET with the given cookies and returns status, rows and the cookies the response sets.
+func (e *c19WebEnv) c19Get(path string, cookies []*http.Cookie) (int, int, []*http.Cookie, string) {
+	req, _ := http.NewRequest("GET", e.srv.URL+path, nil)
+	req.Header.Set("Cache-control", "no-cache")
+	for _, ck := range cookies {
+		req.AddCookie(&http.Cookie{Name: ck.Name, Value: ck.Value})
+	}
+	resp, err := c19Client.Do(req)
+	if err != nil {
+		return -1, 0, nil, ""
+	}
+	defer resp.Body.Close()
+	rows := 0
+	if resp.StatusCode == 200 {
+		var qr web.QueryResult
+		if json.NewDecoder(resp.Body).Decode(&qr) == nil {
+			rows = len(qr.Rows)
+		}
+	}
+	return resp.StatusCode, rows, resp.Cookies(), resp.Header.Get("Location")
+}
+
+func c19SessionCookie(cookies []*http.Cookie) []*http.Cookie {
+	for _, ck := range cookies {
+		if ck.Name == "authcookie" {
+			return []*http.Cookie{ck}
+		}
+	}
+	return nil
+}
+
+// c19CheckProvider: sessions are honoured only when the provider verified org membership.
+func c19CheckProvider(c *fw.Ctx, env *c19WebEnv, cs c19Case) {
+	c.Eval(1)
+	q := "/immediate?" + url.PathEscape("SELECT * FROM t13")
+	served := func(status, rows int) bool { return (status == 200 && rows > 0) || status == 202 }
+	switch cs.Kind {
+	case "idp-session":
+		// an expired, well-signed session: re-verified with the provider on every request
+		c19IdP.set("neterr", cs.Org1)
+		expired := []*http.Cookie{{Name: "authcookie", Value: c19Cookie("cookie-expired-long")}}
+		st1, rows1, set1, _ := env.c19Get(q, expired)
+		desc := fmt.Sprintf("web /immediate, OAuth configured, static password set=%v, expired session cookie, provider's org check answers %q", cs.ServerPw, cs.Org1)
+		if served(st1, rows1) && cs.Org1 != "member" {
+			c.Violate("C19", "web-accepts-expired-session-cookie", fmt.Sprintf("%s: HTTP %d with %d rows", desc, st1, rows1), cs)
+			return
+		}
+		if !served(st1, rows1) && cs.Org1 == "member" {
+			c.Violate("C19", "web-refuses-valid-caller", fmt.Sprintf("%s: HTTP %d (an expired session of a verified member is renewed)", desc, st1), cs)
+			return
+		}
+		// the browser comes back with whatever session cookie the first response set
+		next := c19SessionCookie(set1)
+		if next == nil {
+			next = expired
+		}
+		c19IdP.set("neterr", cs.Org2)
+		st2, rows2, _, _ := env.c19Get(q, next)
+		if served(st2, rows2) && cs.Org1 != "member" && cs.Org2 != "member" {
+			c.Violate("C19", "web-honours-session-that-was-never-verified", fmt.Sprintf("%s; the response (HTTP %d) set a session cookie: %v; second request with it while the org check answers %q: HTTP %d with %d rows", desc, st1, c19SessionCookie(set1) != nil, cs.Org2, st2, rows2), cs)
+			return
+		}
+		if cs.Org1 != "member" {
+			c.Nontrivial(fmt.Sprint(cs))
+		}
+		c.Outcome(fmt.Sprintf("session|%v|%v|%d|%d", cs.Org1 == "member", cs.Org2 == "member", st1, st2))
+	case "idp-callback":
+		// the OAuth callback: obtain a valid state the way a browser does, then present a code
+		c19IdP.set("neterr", "neterr")
+		_, _, _, loc := env.c19Get(q, nil)
+		u, err := url.Parse(loc)
+		if err != nil || u.Query().Get("state") == "" {
+			c.Incomplete("no authorization redirect with a state parameter: " + loc)
+			return
+		}
+		c19IdP.set(cs.Token, cs.Org1)
+		st1, _, set1, _ := env.c19Get("/oauth/code?code=thecode&state="+url.QueryEscape(u.Query().Get("state")), nil)
+		sess := c19SessionCookie(set1)
+		// afterwards the provider verifies nobody: only a session issued by the callback can open the door
+		c19IdP.set("neterr", "nonmember")
+		st2, rows2, _, _ := env.c19Get(q, sess)
+		verified := cs.Token == "ok" && cs.Org1 == "member"
+		desc := fmt.Sprintf("web /oauth/code with a valid state, static password set=%v, provider answers: token exchange %q, org check %q", cs.ServerPw, cs.Token, cs.Org1)
+		if served(st2, rows2) && !verified {
+			c.Violate("C19", "web-issues-session-without-verification", fmt.Sprintf("%s: callback answered HTTP %d and set a session cookie: %v; a query with it is served (HTTP %d, %d rows)", desc, st1, sess != nil, st2, rows2), cs)
+			return
+		}
+		if !served(st2, rows2) && verified {
+			c.Violate("C19", "web-refuses-valid-caller", fmt.Sprintf("%s: session cookie set: %v; query HTTP %d", desc, sess != nil, st2), cs)
+			return
+		}
+		if !verified {
+			c.Nontrivial(fmt.Sprint(cs))
+		}
+		c.Outcome(fmt.Sprintf("callback|%v|%v|%d", verified, sess != nil, st2))
+	}
 }
 
 func c19CheckWeb(c *fw.Ctx, env *c19WebEnv, cs c19Case) {
@@ -398,8 +577,8 @@ func init() {
 		ID:          "C19",
 		Level:       "exploration",
 		NoThreads:   true,
-		Rule:        "the whole request lattice. RPC over real gRPC on 127.0.0.1: server password {unset, set} × client credential {none, wrong, right, proper prefix, right + 1 char} × endpoint {Query (rows), Follow (WAL entries), remote-query handler registration followed by a leader query (query text; forged row injection)}; web via web.Configure on httptest with known hash/block keys: OAuth {unset, set} × static password {unset, set} × credential {none, right token, wrong token, cookie signed with other keys, garbage cookie, well-signed cookie expiring in 1 h, expired 1 s ago, expired 30 days ago} × endpoint {/immediate, /async, /cached/{permalink} of an authorised result}; oracle: with a password / OAuth configured only the right password / right token / unexpired well-signed session obtains data, and valid callers are served; non-trivial = request that must be refused",
-		Assumptions: []string{"GitHub org verification needs api.github.com: offline it always fails, so only its fail-closed direction is exercised", "a well-signed unexpired session cookie counts as verified (it is only issued after verification)"},
+		Rule:        "the whole request lattice. RPC over real gRPC on 127.0.0.1: server password {unset, set} × client credential {none, wrong, right, proper prefix, right + 1 char} × endpoint {Query (rows), Follow (WAL entries), remote-query handler registration followed by a leader query (query text; forged row injection)}; web via web.Configure on httptest with known hash/block keys: OAuth {unset, set} × static password {unset, set} × credential {none, right token, wrong token, cookie signed with other keys, garbage cookie, well-signed cookie expiring in 1 h, expired 1 s ago, expired 30 days ago} × endpoint {/immediate, /async, /cached/{permalink} of an authorised result}; the identity provider (github.com token exchange, api.github.com org check) is an environment whose answers the harness prescribes through http.DefaultTransport: expired well-signed session × org answer {member, non-member, connection error, 401, 403, 500, garbage, empty list} × a second request carrying whatever session cookie the first response set × org answer {member, non-member, error}; OAuth callback with a valid state × token answer {token, connection error, 500, garbage, no token} × the 8 org answers, then a query with the session cookie the callback set; oracle: with a password / OAuth configured only the right password / right token / unexpired well-signed session obtains data, and valid callers are served; non-trivial = request that must be refused",
+		Assumptions: []string{"the provider is reached through http.DefaultTransport (web.handler's http.Client has no transport of its own)", "a session counts as verified only if the provider confirmed org membership when it was issued or renewed", "a well-signed unexpired session cookie counts as verified (it is only issued after verification)"},
 		Shards:      func(tier string) int { return 4 },
 		Budget:      func(tier string) time.Duration { return 15 * time.Minute },
 		Run: func(c *fw.Ctx) {
@@ -442,6 +621,22 @@ func init() {
 							c19CheckWeb(c, env, cs)
 						}
 					}
+					if oauth {
+						for _, o1 := range c19OrgAnswers {
+							for _, o2 := range []string{"member", "nonmember", "neterr"} {
+								cs := c19Case{Kind: "idp-session", OAuth: true, ServerPw: pw, Org1: o1, Org2: o2}
+								c.Sample("idp-session", cs)
+								c19CheckProvider(c, env, cs)
+							}
+						}
+						for _, t := range c19TokenAnswers {
+							for _, o := range c19OrgAnswers {
+								cs := c19Case{Kind: "idp-callback", OAuth: true, ServerPw: pw, Token: t, Org1: o}
+								c.Sample("idp-callback", cs)
+								c19CheckProvider(c, env, cs)
+							}
+						}
+					}
 					env.stop()
 				}
 			}
@@ -466,6 +661,10 @@ func init() {
 				return
 			}
 			defer env.stop()
+			if strings.HasPrefix(cs.Kind, "idp-") {
+				c19CheckProvider(c, env, cs)
+				return
+			}
 			c19CheckWeb(c, env, cs)
 		},
 	})
